@@ -485,10 +485,16 @@ impl Machine {
                     newids.push(self.put(H::B(b)));
                 }
                 "b_from_vec" => {
-                    // x = len, y = extra capacity
-                    let mut v = Vec::with_capacity(x + y);
-                    v.extend_from_slice(&d);
-                    let b = Bytes::from(v);
+                    // x = len, y = extra capacity; mode 1: the same through From<String>
+                    let b = if op.mode == 1 {
+                        let mut st = String::with_capacity(x + y);
+                        st.push_str(std::str::from_utf8(&d).unwrap());
+                        Bytes::from(st)
+                    } else {
+                        let mut v = Vec::with_capacity(x + y);
+                        v.extend_from_slice(&d);
+                        Bytes::from(v)
+                    };
                     newids.push(self.put(H::B(b)));
                 }
                 "b_from_box" => {
@@ -527,7 +533,18 @@ impl Machine {
                     newids.push(self.put(H::M(BytesMut::zeroed(x))));
                 }
                 "m_from_slice" => {
-                    let m = BytesMut::from(&d[..]);
+                    // the other constructors that copy from borrowed data / an iterator
+                    let m = match op.mode {
+                        1 => BytesMut::from(std::str::from_utf8(&d).unwrap()),
+                        2 => d.iter().copied().collect::<BytesMut>(),
+                        3 => d.iter().collect::<BytesMut>(),
+                        4 => {
+                            let mut m = BytesMut::new();
+                            std::fmt::Write::write_str(&mut m, std::str::from_utf8(&d).unwrap()).unwrap();
+                            m
+                        }
+                        _ => BytesMut::from(&d[..]),
+                    };
                     newids.push(self.put(H::M(m)));
                 }
                 // ---------------- Bytes
@@ -669,6 +686,8 @@ impl Machine {
                     newids.push(self.put(H::B(c)));
                 }
                 "m_truncate" => match self.hs[h].as_mut().unwrap() {
+                    // mode 1: shortening through set_len (in contract: x <= len, all bytes initialised)
+                    H::M(m) if op.mode == 1 && x <= m.len() => unsafe { m.set_len(x) },
                     H::M(m) => m.truncate(x),
                     _ => unreachable!(),
                 },
@@ -699,6 +718,19 @@ impl Machine {
                                     m.put_u8(b)
                                 }
                             }
+                            5 => m.extend(d.iter().copied()),
+                            6 => {
+                                // Extend<Bytes>: two chunks
+                                let k = d.len() / 2;
+                                let parts = [Bytes::copy_from_slice(&d[..k]), Bytes::copy_from_slice(&d[k..])];
+                                m.extend(parts);
+                            }
+                            7 => std::fmt::Write::write_str(m, std::str::from_utf8(&d).unwrap()).unwrap(),
+                            8 => {
+                                let mut r: &mut BytesMut = m;
+                                BufMut::put_slice(&mut r, &d)
+                            }
+                            9 => m.put(Bytes::copy_from_slice(&d).chain(&[][..])),
                             _ => m.extend_from_slice(&d),
                         },
                         _ => unreachable!(),
